@@ -128,10 +128,27 @@ def c08_solve(ctx, shape, scale):
     rng = np.random.default_rng(ctx.rng.randrange(1 << 30))
     grid, h = grid_of(shape, scale=scale)
     combos = [(f, b) for f in FORMULATIONS for b in BACKENDS[f]]
+    # history: solver objects for a grid of the SAME shape but other voxel sizes were built and used earlier in this process
+    from vf import frame
+    before = frame.snapshot(["darsia.measure.wasserstein", "darsia.utils.fv", "darsia.utils.grid"])
+    g_other, _ = grid_of(shape, scale=scale * 3.0)
+    for c in combos:
+        w_other = solver("newton", g_other, base_options(formulation=c[0], linear_solver=c[1]))
+        Jo, ro, _ = system(w_other, rng)
+        with warnings.catch_warnings():
+            warnings.simplefilter("ignore")
+            w_other.linear_solve(Jo, ro)
     ws = {c: solver("newton", grid, base_options(formulation=c[0], linear_solver=c[1], linear_solver_options={"rtol": 1e-11, "atol": 1e-13 if c[1] == "amg" else 0.0, "maxiter": 500})) for c in combos}
     w0 = ws[("full", "direct")]
     systems = [system(w0, rng) for _ in range(3)]
     ref = []
+    big = grid.num_cells + 1 > 100          # pyamg's max_coarse: above it the iterative back ends really iterate
+    bad_known, bad_other = [], []
+
+    def ens(label, cond, combo=None):
+        ctx.ensure(label, cond)
+        if not cond:
+            (bad_known if (big and combo is not None and combo[0] == "flux_reduced" and combo[1] in ("amg", "cg")) else bad_other).append(label)
     for k, (J, r, _) in enumerate(systems):
         sols = {}
         for c, w in ws.items():
@@ -141,11 +158,17 @@ def c08_solve(ctx, shape, scale):
             sols[c] = x
             ctx.tick()
             nr = max(1.0, float(np.linalg.norm(r)))
-            ctx.ensure(f"system {k}, {c}: solution satisfies the full system", float(np.linalg.norm(J @ x - r)) <= 1e-6 * nr)
-            ctx.ensure(f"system {k}, {c}: multiplier vanishes (zero-mean mass source)", abs(x[-1]) <= 1e-6 * nr)
+            ens(f"system {k}, {c}: solution satisfies the full system", float(np.linalg.norm(J @ x - r)) <= 1e-6 * nr, c)
+            ens(f"system {k}, {c}: multiplier vanishes (zero-mean mass source)", abs(x[-1]) <= 1e-6 * nr, c)
         x0 = sols[("full", "direct")]
-        ctx.ensure(f"system {k}: all formulations / back ends agree", all(float(np.linalg.norm(x - x0)) <= 1e-5 * max(1.0, float(np.linalg.norm(x0))) for x in sols.values()))
+        for c, x in sols.items():
+            ens(f"system {k}: {c} agrees with the direct full solve", float(np.linalg.norm(x - x0)) <= 1e-5 * max(1.0, float(np.linalg.norm(x0))), c)
         ref.append(x0)
+    # recorded known finding: the flux-eliminated system keeps the multiplier row (indefinite saddle point); AMG / AMG-preconditioned CG do not
+    # converge on it once the hierarchy has more than one level (> 100 unknowns)
+    ctx.witness("flux_reduced_iterative_above_100_unknowns", bool(bad_known) and not bad_other)
+    ctx.ensure("no module- or class-level state written by building / using solver objects (frame)",
+               frame.diff(before, frame.snapshot(["darsia.measure.wasserstein", "darsia.utils.fv", "darsia.utils.grid"])) == [])
     # reuse of a cached factorisation: same matrix, successive right-hand sides
     J, r, _ = systems[0]
     for c in (("full", "direct"), ("flux_reduced", "direct"), ("pressure", "direct")):
@@ -175,3 +198,12 @@ def c08_options(ctx, ls):
         ctx.ensure("cg defaults: rtol 1e-6, atol 0 (documented)", w2.solver_options.get("rtol") == 1e-6 and w2.solver_options.get("atol") == 0)
     else:
         ctx.ensure("amg: tolerance and iteration limit are the user's", so.get("tol") == given["atol"] and so.get("maxiter") == given["maxiter"])
+
+
+@ob("C08.lemmas", kind="L", cases=[{}], samples=(0, 0), funcs=[],
+    cite="that solution satisfies the original full system", note="Lean 4 + Mathlib (lemmas/DarsiaLemmas.lean): schur_full_system over arbitrary additive groups (all sizes), complementing the generic-entry z3/Groebner lemma C08.schur")
+def c08_lemmas(ctx):
+    from vf.lean import check
+    res = check()
+    ctx.ensure("lemma file compiles with Lean 4 + Mathlib without errors, sorry, axioms or admits: " + res["output"][:300], res["ok"])
+    ctx.ensure("lemma present", "schur_full_system" in res["theorems"])
